@@ -17,6 +17,9 @@ def run(ctx):
     jobs = jobs_for(ctx)
     if ctx.quick:
         ctx.exhaustive = False
+    # several mutex objects used at the same time, holder slots that are re-assigned, callback requests whose owner runs
+    # nested in the hand-off (MutexMulti.tla; sequential, runs next to the finest-grain mixes)
+    wait_multi = ml.start_multi(ctx, ml.MULTI_QUICK[:2] if ctx.quick else ml.MULTI_QUICK + ml.MULTI_MORE, nvariants=3 if ctx.quick else 5)
     if not os.environ.get("ONLY_ROUNDS"):
         ml.run_mixes(ctx, rp, jobs, max_paths=500 if ctx.quick else 20000)
     # several rounds per party (ownership and awaiter objects reused), run-queue hand-over, release on a helper thread
@@ -24,5 +27,6 @@ def run(ctx):
     # code -> spec: random schedules of mixes beyond the dumpable bound, validated as traces by TLC
     for k, cfg in enumerate(ml.EXPLORE_QUICK if ctx.quick else ml.EXPLORE_QUICK + ml.EXPLORE_MORE):
         ml.explore_validate(ctx, rp, cfg, "tv%d" % k, 60 if ctx.quick else 1000)
+    wait_multi()
     ctx.assume("compare_exchange_weak does not fail spuriously (x86-64 lock cmpxchg); weak CAS is executed as strong under the controlled scheduler")
     ctx.assume("finest grain: one round per party for up to 4 parties (Mutex.tla), 2-3 rounds for 2-3 parties (MutexRounds.tla)")
